@@ -16,8 +16,9 @@ sys.path.insert(0, os.path.join(os.path.dirname(os.path.abspath(__file__)), ".."
 import vf
 
 IOV_MAX = 1024
-K_WRITE = "write_all_stops_at_iov_max_empty_buffers"
-K_FTRUNC = "ring_ftruncate_length_in_wrong_sqe_field"
+# Two defects found by this check were repaired in /repo (995ab40: uv__fs_write_all stopped at a
+# window of IOV_MAX empty buffers; fadabd2: io_uring ftruncate length in the wrong sqe field).
+# Their witnesses stay in corpus/C11 as regression cases; a return is a plain violation.
 WRAPS_BUFS = ["write", "writev", "pwrite64", "read", "readv", "pread64"]
 
 
@@ -215,9 +216,8 @@ def bufs_monitor(case, line):
         if off < 0 and p["pos"] != pos0 + done:
             return "descriptor position %d, expected %d" % (p["pos"], pos0 + done)
         if err is None and not zero_on_nonempty and done != total:
-            if zero_on_empty:
-                return "KNOWN:" + K_WRITE
-            return "only %d of %d bytes written although the OS reported no error" % (done, total)
+            return "only %d of %d bytes written although the OS reported no error%s" % (
+                done, total, " (stopped after a window of empty buffers)" if zero_on_empty else "")
         return None
     # read
     bufs = [pat_fill(g) for g in range(total)]
@@ -293,7 +293,7 @@ def gen_op(rng):
         (3, lambda: "symlink %s %s" % (any_path(rng), any_path(rng))),
         (3, lambda: "readlink %s" % any_path(rng)),
         (3, lambda: "realpath %s" % any_path(rng)),
-        (4, lambda: "ftruncate %s %d" % (s, rng.choice([0, 0, 0, 0, 0, 5, 2000]))),
+        (4, lambda: "ftruncate %s %d" % (s, rng.choice([0, 0, 5, 7, 2000, 4294967296]))),
         (2, lambda: "fsync %s" % s),
         (2, lambda: "fdatasync %s" % s),
         (2, lambda: "chmod %s %s" % (any_path(rng), rng.choice(["600", "755", "444"]))),
@@ -423,8 +423,7 @@ def routes_monitor_parsed(case, p):
     ops = case.split(" | ")
     if len(ops) != len(p["ops"]):
         return "harness reported %d operations for %d" % (len(p["ops"]), len(ops))
-    ring_off = False          # after a known divergence the ring tree is no longer comparable
-    known = None
+    ring_off = False
     for txt, o in zip(ops, p["ops"]):
         name = o["name"]
         for rt in "SPRX":
@@ -447,12 +446,6 @@ def routes_monitor_parsed(case, p):
         for rt in routes:
             got = (cell_res(o[rt]), cell_out(o[rt]))
             if got != ref:
-                if (rt == "R" and name == "ftruncate" and got[0] == "-22" and ref[0] in ("0", "-9")
-                        and o["R"][0].get("via") == "r" and txt.split()[2] != "0"
-                        and cell_res(o["S"]) == ref[0] and cell_res(o["P"]) == ref[0]):
-                    known = "KNOWN:" + K_FTRUNC
-                    ring_off = ring_off or ref[0] == "0"
-                    continue
                 return "op %d (%s): route %s gives %s %s, POSIX gives %s %s" % (
                     o["i"], txt, {"S": "sync", "P": "pool", "R": "ring"}.get(rt, rt), got[0], got[1], ref[0], ref[1])
         if cell_res(o["X"]) == "alias":
@@ -479,7 +472,7 @@ def routes_monitor_parsed(case, p):
     for rt in ("SPX" if ring_off else "SPRX"):
         if t.get(rt) != t.get("X"):
             return "resulting tree of route %s differs from the POSIX mirror" % rt
-    return known
+    return None
 
 
 # ----------------------------------------------------------------------------
@@ -520,10 +513,6 @@ def read_corpus(name):
 def main():
     chk = vf.Check("C11")
     thorough = chk.tier == "thorough"
-    if os.environ.get("C11_ASSUME_KNOWN") == "1":     # testing aid, see notes/C11.md
-        for key in (K_WRITE, K_FTRUNC):
-            if not chk.match_known(key):
-                chk.known.append({"property": "C11", "key": key, "status": "known", "what": key})
     chk.prove()
     try:
         lib = vf.build_libuv(chk.scratch, "ndebug")
@@ -632,7 +621,6 @@ def main():
             oa, rca, erra = vf.run_lines([hroutes_a, trees], sl, shards=4, env=env)
             bad = rca != 0 or any(s in (erra or "") for s in ("AddressSanitizer", "LeakSanitizer", "runtime error"))
             if bad:
-                # the known ftruncate divergence does not touch memory; anything here is new
                 chk.violation("ASan/LSan/UBSan report while running file operations and uv_fs_req_cleanup twice in every result state",
                               {"kind": "sanitizer", "log": (erra or "")[-3000:], "cases": sl[:5]}, found_input=True)
             chk.cov["sanitizer_sequences"] = len(sl)
